@@ -18,22 +18,26 @@ MANIFEST = {
         "category": "model_checking",
         "text": "TLC exhaustively checks, for all command sequences up to a length bound over 2 statement handles x 2 "
                 "parameters (prepare, send-long-data, execute well-formed / truncated in the value of parameter k / "
-                "truncated in the type array / unknown handle, reset, close), that the statement-table algorithm uses "
+                "truncated in the type array / unknown handle / with the types re-used from the previous execution / "
+                "failing at the backend, reset, close), that the statement-table algorithm uses "
                 "for every execution exactly the values of that packet plus the long data sent for that statement "
                 "since its previous execute/reset, isolates statements, refuses unknown/closed handles and leaves "
                 "nothing behind after a failed execute (properties stated on the history of client commands); a "
                 "variant of the algorithm that does not clear on failure is refuted by TLC. Every enumerated behaviour, "
                 "and seeded TLC simulations of longer behaviours with 1-3 parameters and 3 handles, is replayed on the "
-                "real SessionExecutor (real binary packets through ExecuteCommand) and the statement text reaching a "
+                "real session: real binary packets are read by the proxy's own packet reader (pooled read buffers, recycled "
+                "and overwritten after every command as in Session.Run) and dispatched by Session.execCommand; the statement "
+                "text reaching a "
                 "fake backend is compared with the specification's expected values after every command.",
         "design_ref": "DESIGN.md section 5 C16, section 4.1 StmtLifecycle",
     },
     "level_note": "Values are tags instantiated with benign strings/integers/blobs of four wire types (hostile bytes "
-                  "are C15); every execute packet carries the new-params-bound flag with types (the flag=0 re-execute "
-                  "form is not generated); COM_STMT_CLOSE of an unknown handle has no reply in the protocol and is not "
+                  "are C15); COM_STMT_CLOSE of an unknown handle has no reply in the protocol and is not "
                   "generated; a conforming client is assumed to omit the inline value of a parameter it sent long data "
-                  "for; the exhaustive length bound is 4 (quick) / 5 (thorough) commands, not 6: the history is part "
-                  "of the state, one state per behaviour prefix.",
+                  "for; the exhaustive length bound is 4 commands with every feature and 5 (thorough) "
+                  "without backend faults and re-used types, not 6: the history is part of the state, one state per "
+                  "behaviour prefix. The read loop of Session.Run is reproduced by the harness (read, execCommand, recycle); "
+                  "responses are not written to the client.",
     "technique": "TLA+ spec + TLC exhaustive check; TLC-generated behaviours with expected used values replayed on "
                  "the real SessionExecutor with a fake backend",
 }
@@ -44,6 +48,8 @@ CONSTANTS
   NP = %(np)d
   MaxLen = %(len)d
   MaxBad = %(bad)d
+  MaxFault = %(fault)d
+  AllowReuse = %(reuse)s
   KeepOnFailure = %(keep)s
 INVARIANTS %(invs)s
 CHECK_DEADLOCK FALSE
@@ -55,6 +61,8 @@ CONSTANTS
   NP = %(np)d
   MaxLen = %(len)d
   MaxBad = %(bad)d
+  MaxFault = %(fault)d
+  AllowReuse = %(reuse)s
   KeepOnFailure = FALSE
   GenLen = %(len)d
 INVARIANTS Emit TypeOK UsedMatchesHistory Isolated UnknownFails MalformedFails FailedLeavesUnset NoBoundBetweenCommands
@@ -79,9 +87,9 @@ def nontrivial(c):
             return True
         if e["c"] == "prepare":
             touched.discard(e["h"])
-        elif e["c"] in ("long", "reset") or (e["c"] == "exec" and e["res"] == "malformed"):
+        elif e["c"] in ("long", "reset") or (e["c"] == "exec" and e["res"] in ("malformed", "backend-error")):
             touched.add(e["h"])
-        elif e["c"] == "exec" and e["res"] == "ok" and e["h"] in touched:
+        elif e["c"] == "exec" and e["res"] == "ok" and (e["h"] in touched or e.get("ty") == "reused"):
             return True
     return False
 
@@ -123,18 +131,23 @@ def run(ctx):
         if first_ok[0] is None and any(e["c"] == "exec" and e["res"] == "ok" and e["used"][0]["k"] == "val" for e in v["cmds"]):
             first_ok[0] = v
 
-    g = dict(prep=2, np=2, len=5 if thorough else 4, bad=1)
-    n0 = len(cf)
-    r = ctx.tlc("StmtLifecycle_gen", "sl_gen.cfg", extra_files={"sl_gen.cfg": GEN_CFG % g}, workers=4, coverage=True,
-                timeout=2400, case_sink=sink, keep_cases=False,
-                label="exhaustive check + all behaviours of %d commands %s" % (g["len"], g))
-    ctx.log("mc+gen", g, r.stats(), "behaviours:", len(cf) - n0, "%.1fs" % r.wall)
-    if r.zero_actions:
-        ctx.notes.append("vacuous actions in %s: %s" % (g, r.zero_actions))
-    ctx.sample({"np": g["np"], "cmds": cf.get(n0 + (len(cf) - n0) // 2)["cmds"]})
+    gens = [dict(prep=2, np=2, len=4, bad=1, fault=1, reuse="TRUE")]
+    if thorough:
+        # length 5 with every feature is 6.1e5 behaviours; the longer bound is enumerated without backend faults and
+        # without the types-reused packet form, which length 4 and the simulations cover
+        gens.append(dict(prep=2, np=2, len=5, bad=1, fault=0, reuse="FALSE"))
+    for g in gens:
+        n0 = len(cf)
+        r = ctx.tlc("StmtLifecycle_gen", "sl_gen.cfg", extra_files={"sl_gen.cfg": GEN_CFG % g}, workers=4, coverage=True,
+                    timeout=2400, case_sink=sink, keep_cases=False,
+                    label="exhaustive check + all behaviours of %d commands %s" % (g["len"], g))
+        ctx.log("mc+gen", g, r.stats(), "behaviours:", len(cf) - n0, "%.1fs" % r.wall)
+        if r.zero_actions:
+            ctx.notes.append("vacuous actions in %s: %s" % (g, r.zero_actions))
+        ctx.sample({"np": g["np"], "cmds": cf.get(n0 + (len(cf) - n0) // 2)["cmds"]})
     mcs = []
     if thorough:
-        mcs = [dict(prep=3, np=1, len=5, bad=2), dict(prep=1, np=3, len=4, bad=1)]
+        mcs = [dict(prep=3, np=1, len=5, bad=2, fault=1, reuse="TRUE"), dict(prep=1, np=3, len=4, bad=1, fault=1, reuse="TRUE")]
     for m in mcs:
         m = dict(m, keep="FALSE", invs=ALL_INVS)
         r = ctx.tlc("StmtLifecycle", "sl_mc.cfg", extra_files={"sl_mc.cfg": MC_CFG % m}, coverage=True, timeout=1500,
@@ -144,7 +157,7 @@ def run(ctx):
             ctx.notes.append("vacuous actions in %s: %s" % (m, r.zero_actions))
     # the variant that keeps bound values after a failed execute (what executor_stmt.go does) must be refuted:
     # shows that UsedMatchesHistory is not vacuous and yields the candidate shape that the replay then looks for
-    m = dict(prep=1, np=2, len=4, bad=0, keep="TRUE", invs="UsedMatchesHistory")
+    m = dict(prep=1, np=2, len=4, bad=0, fault=1, reuse="TRUE", keep="TRUE", invs="UsedMatchesHistory")
     r = ctx.tlc("StmtLifecycle", "sl_def.cfg", extra_files={"sl_def.cfg": MC_CFG % m}, timeout=600, workers=1,
                 allow_violation=True, label="defective variant KeepOnFailure")
     ctx.cov["defective_variant_refuted_by_tlc"] = {"violated": r.violated, "counterexample_states": r.trace_states}
@@ -152,10 +165,12 @@ def run(ctx):
         raise vlib.Inconclusive("TLC does not refute the keep-on-failure variant: the property would be vacuous")
 
     # 2. seeded simulation of longer behaviours (more handles, 1-3 parameters)
-    sims = [dict(prep=3, np=3, len=9, bad=2, num=80)]
+    sims = [dict(prep=3, np=3, len=9, bad=2, fault=2, reuse="TRUE", num=80)]
     if thorough:
-        sims = [dict(prep=3, np=2, len=12, bad=2, num=700), dict(prep=2, np=3, len=10, bad=1, num=300),
-                dict(prep=2, np=1, len=10, bad=2, num=400), dict(prep=3, np=2, len=16, bad=3, num=300)]
+        sims = [dict(prep=3, np=2, len=12, bad=2, fault=3, reuse="TRUE", num=700),
+                dict(prep=2, np=3, len=10, bad=1, fault=2, reuse="TRUE", num=300),
+                dict(prep=2, np=1, len=10, bad=2, fault=2, reuse="TRUE", num=400),
+                dict(prep=3, np=2, len=16, bad=3, fault=3, reuse="TRUE", num=300)]
     for s in sims:
         n0 = len(cf)
         r = ctx.tlc("StmtLifecycle_gen", "sl_gen.cfg", extra_files={"sl_gen.cfg": SIM_CFG % s}, workers=1, mode="sim",
@@ -175,7 +190,7 @@ def run(ctx):
     # 3. binding self-test case: a corrupted expectation must be flagged by the harness (same harness run)
     bad = {"np": 2, "iseed": 7, "selftest": True, "cmds": [
         {"c": "prepare", "h": 1, "res": "ok"},
-        {"c": "exec", "h": 1, "pk": ["val", "val"], "mal": 0, "res": "ok",
+        {"c": "exec", "h": 1, "pk": ["val", "val"], "mal": 0, "ty": "sent", "fault": False, "res": "ok",
          "used": [{"k": "null"}, {"k": "val", "tag": [2, 2]}]}]}   # the specification says used[1] = <<2,1>>
     cf.add(bad)
 
